@@ -320,7 +320,12 @@ class Model:
 
     # ----- state helpers
     def dis(self):
-        return [self.cdis[i] or self.gdis[self.grp[i]] for i in range(len(self.cs))]
+        """per command: hidden from the input stream (every registration of it is disabled)"""
+        r = [True] * len(self.cs)
+        for (i, g), x in zip(self.slots, self.slot_dis()):
+            if not x:
+                r[i] = False
+        return r
 
     def slot_dis(self):
         return [self.cdis[i] or self.gdis[g] for i, g in self.slots]
